@@ -1,6 +1,8 @@
 import Lean.Data.Json
 import NGF.Model.TlsBind
 import NGF.Model.TlsJudge
+import NGF.Model.PipelineTlsTie
+import NGF.DriverLib.PipelineIO
 import NGF.Model.Proto
 /-
 Driver entry for C16. Input lines are the JSON objects written by harness/c16.
@@ -10,6 +12,9 @@ Driver entry for C16. Input lines are the JSON objects written by harness/c16.
             hostnames, SSL servers, key pairs, policy validity/selection, mismatch, VerifyTLS, cert bundles from
             "in" (+ the attachment facts of the graph) and compares with what the real code produced)
   `loop`  : direct-call line `{"k":kind,…,"out":…}` → `ok` | `diff <model value>`
+  `pipeline` : fragment line `{"site":"frag","flat":…,"files":{http,stream,matches},"secrets":[…],"sfiles":[…]}` → JSON object
+            (translation validation of `PipelineTls.genT` against the real http.conf and the real secret files,
+            NGF.PipelineTlsTie.tieT; the theorems of Props/C16Pipeline executed on the scenario)
 Undecodable input answers `bad-op`.
 -/
 namespace NGF.TlsDriver
@@ -348,6 +353,28 @@ def loopLine (line : String) : Except String String := do
     return cmp model s!"{showL (← reqStr j "out")}/{← reqBool j "err"}"
   | _ => return "bad-op"
 
+/-! ### pipeline level: `genT` against the real configuration and secret files -/
+
+def pipelineLine (line : String) : Except String String := do
+  let j ← Json.parse line
+  if NGF.PipelineIO.optStr j "site" != "frag" then return "{\"skip\":true}"
+  let flat ← NGF.PipelineIO.dScenario (← j.getObjVal? "flat")
+  let secrets ← (← reqArr j "secrets").mapM parseSecret
+  let sfiles ← (← reqArr j "sfiles").mapM fun f => do
+    return ((← (← f.getObjVal? "path").getStr?), (← (← f.getObjVal? "content").getStr?))
+  match NGF.PipelineIO.dConfig (← j.getObjVal? "files") with
+  | .error e => return (Json.mkObj [("inFragment", false), ("why", "unparsable: " ++ e)]).compress
+  | .ok cfg =>
+    let t := NGF.PipelineTlsTie.tieT cfg flat secrets sfiles
+    let st := t.stats
+    return (Json.mkObj [("inFragment", t.inFragment), ("why", t.why), ("served", t.served), ("confEqual", t.confEqual),
+      ("confDiff", t.confDiff), ("filesEqual", t.filesEqual), ("filesDiff", t.filesDiff), ("thmFail", t.thmFail),
+      ("thmChecks", t.thmChecks),
+      ("stats", Json.mkObj [("http", st.httpListeners), ("https", st.httpsListeners), ("validHttps", st.validHttps),
+        ("badRef", st.badRef), ("conflicted", st.conflictedL), ("res", Json.arr (st.resKinds.map Json.str).toArray),
+        ("sslServers", st.sslServers), ("listenerOnly", st.listenerOnlyServers), ("sslLocs", st.sslLocs),
+        ("keyPairs", st.keyPairs), ("sharedPorts", st.sharedPorts), ("contested", st.contested)])]).compress
+
 /-- one answer line per input line: control characters never reach the output -/
 def oneLine (s : String) : String :=
   String.ofList (s.toList.map fun c => if c.toNat < 32 then '~' else c)
@@ -364,7 +391,8 @@ def driver (args : List String) : IO UInt32 := do
   | ["judge"] => NGF.Proto.forEachLine stdin fun l => stdout.putStrLn (run judgeLine l)
   | ["model"] => NGF.Proto.forEachLine stdin fun l => stdout.putStrLn (run modelLine l)
   | ["loop"] => NGF.Proto.forEachLine stdin fun l => stdout.putStrLn (run loopLine l)
-  | _ => IO.eprintln "usage: C16 judge|model|loop"; return 2
+  | ["pipeline"] => NGF.Proto.forEachLine stdin fun l => stdout.putStrLn (run pipelineLine l)
+  | _ => IO.eprintln "usage: C16 judge|model|loop|pipeline"; return 2
   return 0
 
 end NGF.TlsDriver
